@@ -246,9 +246,13 @@ def egrad(func, argnum=0):
             xa, arg = _seed(x, lvl)
             out = func(*(args[:argnum] + (arg,) + args[argnum + 1:]), **kw)
             oa = _np.asarray(out, dtype=object)
+            # elementwise_grad = vector-Jacobian product with a vector of ones: d sum(out) / d x[idx]
             res = _np.empty(xa.shape, dtype=object)
             for idx, _ in _np.ndenumerate(xa):
-                res[idx] = _dir(oa[idx], lvl, idx)
+                tot = 0
+                for _oi, o in _np.ndenumerate(oa):
+                    tot = tot + _dir(o, lvl, idx)
+                res[idx] = tot
             return res if res.ndim > 0 else res[()]
         finally:
             _LEVEL[0] -= 1
